@@ -19,6 +19,7 @@ import (
 	"testing"
 	texttemplate "text/template"
 	"time"
+	_ "time/tzdata"
 
 	"github.com/samber/ro"
 	robytes "github.com/samber/ro/plugins/bytes"
@@ -479,6 +480,13 @@ type tplData struct {
 func TestC18_TimeTemplateEncodings(t *testing.T) {
 	layouts := []string{time.RFC3339, time.RFC1123, "2006-01-02", "15:04:05", time.Kitchen, "Jan _2 2006", "", "bogus"}
 	locs := []*time.Location{time.UTC, time.FixedZone("X", 3*3600+1800), time.FixedZone("W", -11*3600)}
+	// locations with daylight saving (time/tzdata is linked in): days that are 23,
+	// 24.5 or 25 hours long, midnights that do not exist
+	for _, name := range []string{"Europe/Paris", "America/New_York", "Australia/Lord_Howe", "America/Sao_Paulo", "Asia/Tehran", "Pacific/Apia"} {
+		if l, err := time.LoadLocation(name); err == nil {
+			locs = append(locs, l)
+		}
+	}
 	rapid.Check(t, func(t *rapid.T) {
 		which := rapid.IntRange(0, 10).Draw(t, "which")
 		if which >= 8 {
@@ -502,6 +510,13 @@ func TestC18_TimeTemplateEncodings(t *testing.T) {
 			ts := make([]time.Time, n)
 			for i := range ts {
 				ts[i] = time.Unix(rapid.Int64Range(-6e10, 6e10).Draw(t, "ts"), rapid.Int64Range(0, 999999999).Draw(t, "ns")).In(rapid.SampledFrom(locs).Draw(t, "loc"))
+				if rapid.Bool().Draw(t, "nearTransition") {
+					// a moment within a day of the next change of the zone offset, if any
+					base := time.Unix(rapid.Int64Range(0, 2e9).Draw(t, "base"), 0).In(ts[i].Location())
+					if _, end := base.ZoneBounds(); !end.IsZero() {
+						ts[i] = end.Add(time.Duration(rapid.Int64Range(-26*3600, 26*3600).Draw(t, "offsetSeconds")) * time.Second)
+					}
+				}
 			}
 			d := time.Duration(rapid.Int64Range(-1e15, 1e15).Draw(t, "d"))
 			y, m, dd := rapid.IntRange(-3, 3).Draw(t, "y"), rapid.IntRange(-14, 14).Draw(t, "m"), rapid.IntRange(-40, 40).Draw(t, "dd")
@@ -568,7 +583,9 @@ func TestC18_TimeTemplateEncodings(t *testing.T) {
 					}
 				}
 			}
-			rt.Case(caseKey("base64", name, fmt.Sprintf("%q %q", raw, texts)), true, "base64", func() any { return map[string]any{"encoding": name, "raw": fmt.Sprintf("%q", raw), "texts": fmt.Sprintf("%q", texts)} })
+			rt.Case(caseKey("base64", name, fmt.Sprintf("%q %q", raw, texts)), true, "base64", func() any {
+				return map[string]any{"encoding": name, "raw": fmt.Sprintf("%q", raw), "texts": fmt.Sprintf("%q", texts)}
+			})
 		case 4: // json
 			n := rapid.IntRange(0, 3).Draw(t, "n")
 			in := make([]tplData, n)
